@@ -1,0 +1,33 @@
+//go:build verif
+
+// Contracts for package fp, read by /verif's govc. Comments only; compiled only under tag "verif".
+
+package fp
+
+//@ func Zero
+//@ props C06 C17
+//@ prelude field
+//@ ensures result == fp_zero
+
+//@ func One
+//@ props C06 C17
+//@ prelude field
+//@ ensures result == fp_one
+
+//@ func MinusOne
+//@ props C17
+//@ prelude field
+//@ ensures result == fp_neg(fp_one)
+
+//@ func BatchInvert
+//@ props C19
+//@ prelude field
+//@ ensures fresh(result) && len(result) == len(a)
+//@ ensures forall k int :: 0 <= k && k < len(a) ==> result[k] == fp_inv(a[k])
+
+// SqrtPrecomp: specification used by the decoders (C06); its own proof obligations belong to C17.
+//@ func SqrtPrecomp
+//@ assumed specification of the table-driven square root; decided under C17 (exponent abstraction), here used as a contract
+//@ prelude field curve
+//@ ensures result == nil <==> !fp_issquare(*x)
+//@ ensures result != nil ==> fresh(result) && (*result) * (*result) == *x
